@@ -1,4 +1,5 @@
 import FitProps.Go2LeanTimestamp
+import FitProps.Go2LeanRecordHeader
 /-!
 # C01 — tie of the compressed-timestamp arithmetic to the source by translation
 
@@ -11,7 +12,8 @@ assigns, and the translation fails loudly when that anchor is gone). The theorem
 functions of the models the round-trip theorems of C01 are about.
 
 PROPERTY THEOREMS (audited by ./check): C01_go2lean_dec_header, C01_go2lean_dec_header_wire, C01_go2lean_dec_field,
-C01_go2lean_dec_field_wire, C01_go2lean_dec_isCompressed, C01_go2lean_enc_decide
+C01_go2lean_dec_field_wire, C01_go2lean_dec_isCompressed, C01_go2lean_enc_decide, C01_go2lean_hdr_dec_kind,
+C01_go2lean_hdr_dec_local, C01_go2lean_hdr_enc, C01_go2lean_hdr_roundtrip
 -/
 namespace Fit.C01
 open Fit.Go2Lean
@@ -43,6 +45,24 @@ theorem C01_go2lean_enc_decide (arch tsRef tsLast hdr : Nat) (m : Fit.Wire.WMsg)
     (match (Fit.Wire.compressTs arch tsRef tsLast m).2.2 with
      | none => o.ret = some false ∧ o.mesg_Header = hdr
      | some off => o.ret = none ∧ o.mesg_Header = 0x80 ||| off) := ts_enc_decide arch tsRef tsLast hdr m
+
+/-! the record header bits: definition / developer-data flags and the local message type, decoder and encoder side -/
+
+theorem C01_go2lean_hdr_dec_kind : ∀ h < 256, Go.decoder.decodeMessage_isDefinition h = Fit.FitFormat.isDefinition h ∧
+    Go.decoder.decodeMessageDefinition_hasDevData h = Fit.FitFormat.hasDevData h := hdr_dec_kind
+
+theorem C01_go2lean_hdr_dec_local : ∀ h < 256,
+    (Go.decoder.decodeMessageData_localMesgNum h).localMesgNum &&& 15 = Fit.FitFormat.localNum h ∧
+    (h ≥ 128 → (Go.decoder.decodeMessageData_localMesgNum h).localMesgNum < 4) := hdr_dec_local
+
+theorem C01_go2lean_hdr_enc (i t : Nat) :
+    (Go.encoder.encodeMessage_header true i (0x80 ||| t)).mesg_Header = (0x80 ||| t) ||| ((i <<< 5) % 256) ∧
+    (Go.encoder.encodeMessage_header false i 0).mesg_Header = i := hdr_enc i t
+
+theorem C01_go2lean_hdr_roundtrip : (∀ i < 4, ∀ t < 32,
+      (Go.decoder.decodeMessageData_localMesgNum (Go.encoder.encodeMessage_header true i (0x80 ||| t)).mesg_Header).localMesgNum = i) ∧
+    (∀ i < 16, (Go.decoder.decodeMessageData_localMesgNum (Go.encoder.encodeMessage_header false i 0).mesg_Header).localMesgNum = i) :=
+  hdr_roundtrip
 
 /-- Non-vacuity: a header that compresses (reference 0x10000000, timestamp 5 s later) and one that rolls over. -/
 example : (Go.encoder.compressTimestampIntoHeader_decide 0x10000000 0x10000000 0 0x10000005).ret = none ∧
